@@ -391,13 +391,21 @@ func genFs(ctx context.Context, rng *c.Rng, out *c.Out, root string, n int, comp
 				if rng.Intn(12) == 0 {
 					off = -1 - int64(rng.Intn(3))
 				}
-				op = []any{"pread", pickFd(), []int64{int64(rng.Intn(12))}, off}
+				lens := []int64{int64(rng.Intn(12))}
+				if rng.Intn(3) == 0 {
+					lens = append(lens, int64(1+rng.Intn(6)))
+				}
+				op = []any{"pread", pickFd(), lens, off}
 			case k < 63:
 				off := int64(rng.Intn(24))
 				if rng.Intn(12) == 0 {
 					off = -1 - int64(rng.Intn(3))
 				}
-				op = []any{"pwrite", pickFd(), []string{data()}, off}
+				ch := []string{data()}
+				if rng.Intn(3) == 0 {
+					ch = append(ch, data())
+				}
+				op = []any{"pwrite", pickFd(), ch, off}
 			case k < 69:
 				wh := int64(rng.Intn(3))
 				off := int64(rng.Intn(20))
